@@ -581,7 +581,10 @@ def gen_services(rng: random.Random) -> List[dict]:
     for k in range(n):
         type_i = rng.choice([0, 0, 0, 1, 1, 2, 2, 3])
         host_i = rng.choice([0, 0, 0, 1, 1, 2, 2, 3])
-        if host_i in host_addrs and rng.random() < 0.6:
+        if host_i in host_addrs:
+            # one host name, one set of addresses: two services that announce different address sets under one name flush each
+            # other's records out of every cache (cache-flush bit), their own host's included -- a contradiction in the
+            # configuration, not a history of the property's domain
             addrs = host_addrs[host_i]
         else:
             addrs = rng.choice(['v4', 'v4', 'v6', 'dual', 'two4', 'other4'])
